@@ -47,6 +47,7 @@ def cases(tier):
         yield ("dropped", n)
     for n in (2, 3):
         yield ("cross", n)
+    yield ("greedy",)
     # (kind, n, lo, hi, naming, mode)
     namings = (0,) if tier == "quick" else (0, 1)
     for n in (1, 2, 3, 4):
@@ -515,6 +516,86 @@ def _run_cross(case):
                         viols.append(V("C01:cross-program:fed-by-same-named-own-command", "%s was given the BASELINE's command %s as an object but was fed another object" % (names[c_], names[p_]), tag=tag))
                     k = "cross:%s" % ("ok" if got and all(g == want for g in got) else "bad")
                     outcomes[k] = outcomes.get(k, 0) + 1
+        # a REFINED model: command i of the variant also consumes the BASELINE's command of the SAME NAME (as an object, in a direct slot or in
+        # its list): an acyclic graph across two programs
+        for kind in "dl":
+            edges = tuple((c, p, kind) for c, p in es)
+            for i_ in range(n):
+                VL.reset()
+                base = Program(libraries=LIB)
+                var = Program(libraries=LIB)
+                tag = {"n": n, "edges": edges, "refined": names[i_], "same_named_baseline_command_in": "direct slot" if kind == "d" else "list"}
+                sample = tag
+                evals += 1
+                try:
+                    for i in range(n):
+                        base.add_command(VL.Node, names[i], dict(G.slots_of(n, edges, i, names)))
+                    for i in range(n):
+                        slots = dict(G.slots_of(n, edges, i, names))
+                        if i == i_:
+                            if kind == "d":
+                                slots["D4"] = base.commands[names[i]]
+                            else:
+                                slots["L"] = list(slots.get("L", [])) + [base.commands[names[i]]]
+                        var.add_command(VL.Node, names[i], slots)
+                    var.run()
+                except Exception as exc:
+                    viols.append(V("C01:cross-program:same-name:raised:%s" % type(exc).__name__, "a command consuming the baseline's command of the same name raised %r" % (exc,), tag=tag))
+                    continue
+                want = id(base.commands[names[i_]]._result)
+                got = [rid for cons, prod, fin, rid in VL.FED if cons == names[i_] and prod == names[i_]]
+                if not got or any(g != want for g in got):
+                    viols.append(V("C01:cross-program:same-name:not-fed-by-baseline", "%s was given the baseline's %s but was fed %d other objects" % (names[i_], names[i_], len(got)), tag=tag))
+                k = "cross-same-name:%s" % ("ok" if got and all(g == want for g in got) else "bad")
+                outcomes[k] = outcomes.get(k, 0) + 1
+    return {"evals": max(evals, 1), "nontrivial": evals, "judged": evals, "viols": viols[:20], "outcomes": outcomes, "sample": sample, "states": 0, "transitions": 0}
+
+
+def _run_greedy(case):
+    """ONE Python list (of result names, of command objects, or mixed; 1-3 sources) given as the list argument of TWO consumers, one of which uses
+    up the list it receives while executing; every order of adding and of demanding the consumers, run once and twice: each consumer is fed the
+    finished result of every source in the list, once per entry"""
+    import itertools
+    from mpilot.program import Program
+    from ..vlib import graph as VL
+
+    names = G.NAMINGS[0]
+    viols, outcomes = [], {}
+    evals = 0
+    sample = None
+    for nsrc in (1, 2, 3):
+        for forms in itertools.product(("name", "object"), repeat=nsrc):
+            for container in ("list", "tuple"):
+                for order in (("X", "Y"), ("Y", "X")):
+                    for greedy in ("X", "Y", "both"):
+                        for runs in (1, 2):
+                            VL.reset()
+                            p = Program(libraries=LIB)
+                            for i in range(nsrc):
+                                p.add_command(VL.Node, names[i], {})
+                            shared = [names[i] if f == "name" else p.commands[names[i]] for i, f in enumerate(forms)]
+                            if container == "tuple":
+                                shared = tuple(shared)
+                            tag = {"sources": nsrc, "entries": list(forms), "container": container, "added": list(order), "greedy": greedy, "runs": runs}
+                            sample = tag
+                            evals += 1
+                            try:
+                                for c in order:
+                                    p.add_command(VL.Greedy if greedy in (c, "both") else VL.Node, c, {"L": shared})
+                                for _ in range(runs):
+                                    p.run()
+                            except Exception as exc:
+                                viols.append(V("C01:shared-list:raised:%s" % type(exc).__name__, "two consumers of one list object raised %r" % (exc,), tag=tag))
+                                continue
+                            ok = True
+                            for c in order:
+                                got = sorted(prod for cons, prod, fin, rid in VL.FED if cons == c and fin)
+                                if got != sorted(names[:nsrc]) or VL.LOG.count(("enter", c)) != 1:
+                                    viols.append(V("C01:shared-list:consumer-not-fed-by-all-references", "%s references %r through a list shared with the other consumer but was fed %r (executed %d times)" % (
+                                        c, list(names[:nsrc]), got, VL.LOG.count(("enter", c))), tag=tag))
+                                    ok = False
+                            k = "shared-list:%s" % ("ok" if ok else "bad")
+                            outcomes[k] = outcomes.get(k, 0) + 1
     return {"evals": max(evals, 1), "nontrivial": evals, "judged": evals, "viols": viols[:20], "outcomes": outcomes, "sample": sample, "states": 0, "transitions": 0}
 
 
@@ -643,6 +724,8 @@ def run(case):
         return _run_dropped(case)
     if case[0] == "cross":
         return _run_cross(case)
+    if case[0] == "greedy":
+        return _run_greedy(case)
     if case[0] == "graphs":
         return _run_graphs(case)
     return _run_hist(case)
